@@ -1048,6 +1048,7 @@ func runDIFFSHORTCUT(c *Ctx) {
 		c.Undecided(step, P.Pos(step.Pos()), "popped items not found", "the diff step does not pop exactly one item from the OLD stack and one from the NEW stack (as found by the side inference)")
 		return
 	}
+	shortcutRoots(c, S, bodies[0].stacks)
 	tot := &scTotals{step: step}
 	for _, b := range bodies {
 		shortcutBody(c, S, b, tot)
@@ -4492,5 +4493,231 @@ func notifyMemoHeight(c *Ctx, S *sidesInfo, notified *ssa.Function) {
 	}
 	if n == 0 {
 		c.Undecided(notified, P.Pos(notified.Pos()), "no memo access", notified.Name()+" (with its helpers) never reads or writes a map: the rule cannot find the memo")
+	}
+}
+
+// ---- DIFFSHORTCUT: the diff starts from the two root links ------------------------------
+
+// shortcutRoots: where the diff state is built, each tree's root is put on its
+// stack as ONE link item (the callee may decline for nil or the entry-less
+// placeholder) and is neither expanded nor loaded there: the first thing the
+// step compares must be the two root links — otherwise one side starts a
+// level ahead and the common left spine is read even for identical versions.
+func shortcutRoots(c *Ctx, S *sidesInfo, stacks map[*sdSlot]bool) {
+	P := c.P
+	var stackT types.Type
+	for sl := range stacks {
+		stackT = sl.field.Type()
+	}
+	isStackArg := func(a ssa.Value) bool {
+		if sl := S.slotRef(a); sl != nil && stacks[sl] {
+			return true
+		}
+		if pt, ok := a.Type().Underlying().(*types.Pointer); ok && stackT != nil && types.Identical(pt.Elem(), stackT) {
+			return true
+		}
+		return false
+	}
+	// v is the root value `base` or obtained from it by type assertion / φ
+	var derived func(v, base ssa.Value, d int) bool
+	derived = func(v, base ssa.Value, d int) bool {
+		if d > 6 {
+			return false
+		}
+		v = ir.ResolveCell(ir.Strip(v))
+		if v == base {
+			return true
+		}
+		switch x := v.(type) {
+		case *ssa.TypeAssert:
+			return derived(x.X, base, d+1)
+		case *ssa.Extract:
+			if ta, ok := x.Tuple.(*ssa.TypeAssert); ok && x.Index == 0 {
+				return derived(ta.X, base, d+1)
+			}
+		case *ssa.Phi:
+			for _, e := range x.Edges {
+				if derived(e, base, d+1) {
+					return true
+				}
+			}
+		}
+		return false
+	}
+	isItemPtr := func(t types.Type) bool {
+		n, _ := sdNamedStruct(t)
+		_, isPtr := t.Underlying().(*types.Pointer)
+		return isPtr && n != nil && n.Obj() == S.itemT.Obj()
+	}
+	type verdict struct {
+		bad  string
+		at   ssa.Instruction
+		push int
+	}
+	// check fn, which received the root as `base` (a parameter, or the load of
+	// Mast.root in the constructor): returns the first defect, and the push calls
+	var check func(fn *ssa.Function, isBase func(ssa.Value) bool, depth int) (string, ssa.Instruction, []ssa.CallInstruction)
+	check = func(fn *ssa.Function, isBase func(ssa.Value) bool, depth int) (string, ssa.Instruction, []ssa.CallInstruction) {
+		var pushes []ssa.CallInstruction
+		if depth > 4 {
+			return "the root is handed on through more than four helpers", nil, nil
+		}
+		for _, ci := range CallsOf(fn) {
+			callee := ir.Callee(ci.Common())
+			args := ci.Common().Args
+			rootIdx, hasStack, itemArg := -1, false, ssa.Value(nil)
+			for ai, a := range args {
+				if isBase(a) {
+					rootIdx = ai
+				}
+				if isStackArg(a) {
+					hasStack = true
+				}
+				if isItemPtr(a.Type()) {
+					itemArg = a
+				}
+			}
+			if rootIdx >= 0 {
+				if callee != nil && S.wholeExpander(callee, rootIdx, 0) {
+					return fmt.Sprintf("the root node is expanded at once by %s", callee.Name()), ci, nil
+				}
+				if ml, name := sdMayLoad(c, ci); ml {
+					return fmt.Sprintf("the root is read by %s while the diff state is built", name), ci, nil
+				}
+			}
+			if !hasStack || callee == nil || !S.slice[callee] {
+				continue
+			}
+			if call, isCall := ci.(*ssa.Call); isCall {
+				if n, _ := sdNamedStruct(call.Type()); n != nil && n.Obj() == S.itemT.Obj() {
+					continue // a pop / peek
+				}
+			}
+			if depth == 0 && rootIdx < 0 {
+				// in the constructor only what concerns this root counts
+				// (the other root has its own obligation)
+				al, isAlloc := ssa.Value(nil), false
+				if itemArg != nil {
+					al, isAlloc = ir.ResolveCell(ir.Strip(itemArg)).(*ssa.Alloc)
+				}
+				carries := false
+				if isAlloc && al.(*ssa.Alloc).Referrers() != nil {
+					for _, r := range *al.(*ssa.Alloc).Referrers() {
+						if fa, isFA := r.(*ssa.FieldAddr); isFA && fa.Field == S.itemLinkF && fa.Referrers() != nil {
+							for _, rr := range *fa.Referrers() {
+								if st, isSt := rr.(*ssa.Store); isSt && isBase(st.Val) {
+									carries = true
+								}
+							}
+						}
+					}
+				}
+				if !carries {
+					continue
+				}
+			}
+			pushes = append(pushes, ci)
+			switch {
+			case rootIdx >= 0:
+				p := callee.Params[rootIdx]
+				bad, at, inner := check(callee, func(v ssa.Value) bool { return derived(v, p, 0) }, depth+1)
+				if bad != "" {
+					return bad, at, nil
+				}
+				_ = inner
+			case itemArg != nil:
+				// the primitive push of an item built here: its link must be the root
+				al, isAlloc := ir.ResolveCell(ir.Strip(itemArg)).(*ssa.Alloc)
+				okItem := false
+				if isAlloc && al.Referrers() != nil {
+					for _, r := range *al.Referrers() {
+						fa, isFA := r.(*ssa.FieldAddr)
+						if !isFA || fa.Field != S.itemLinkF || fa.Referrers() == nil {
+							continue
+						}
+						for _, rr := range *fa.Referrers() {
+							if st, isSt := rr.(*ssa.Store); isSt && st.Addr == ssa.Value(fa) && isBase(st.Val) {
+								okItem = true
+							}
+						}
+					}
+				}
+				if !okItem {
+					return "an item that does not carry the root link is pushed", ci, nil
+				}
+			default:
+				return fmt.Sprintf("%s pushes something other than the root link", callee.Name()), ci, nil
+			}
+		}
+		for i, a := range pushes {
+			if sdBlockInCycle(a.Block()) {
+				return "the root is pushed in a loop", a, nil
+			}
+			for j, b := range pushes {
+				if i != j && ir.InstrReaches(a, b) {
+					return "more than one item is pushed for the root on one path", b, nil
+				}
+			}
+		}
+		return "", nil, pushes
+	}
+	n := 0
+	for _, fn := range S.fns {
+		isCtor := false
+		res := fn.Signature.Results()
+		for i := 0; i < res.Len(); i++ {
+			if nt, _ := sdNamedStruct(res.At(i).Type()); nt != nil && S.sidedT[nt.Obj()] == "state" {
+				if _, isPtr := res.At(i).Type().Underlying().(*types.Pointer); isPtr {
+					isCtor = true
+				}
+			}
+		}
+		if !isCtor {
+			continue
+		}
+		// the roots used in the constructor, by tree
+		roots := map[ssa.Value][]ssa.Value{} // tree -> loads of its root
+		for _, b := range fn.Blocks {
+			for _, ins := range b.Instrs {
+				if v, ok := ins.(ssa.Value); ok {
+					if tree, isRoot := rootLoad(v); isRoot {
+						roots[tree] = append(roots[tree], v)
+					}
+				}
+			}
+		}
+		for tree, loads := range roots {
+			n++
+			isBase := func(v ssa.Value) bool {
+				for _, l := range loads {
+					if derived(v, l, 0) {
+						return true
+					}
+				}
+				return false
+			}
+			bad, at, pushes := check(fn, isBase, 0)
+			pos := P.Pos(fn.Pos())
+			if at != nil {
+				pos = P.InstrPos(at)
+			}
+			what := fmt.Sprintf("root of %s in %s", sdDesc(tree), ir.FuncName(fn))
+			switch {
+			case bad != "":
+				atFn := fn
+				if at != nil {
+					atFn = at.Parent()
+				}
+				c.Violation(atFn, pos, "the diff does not start from the root link: "+bad,
+					fmt.Sprintf("building the diff state, the root of %s must go onto its stack as one link item, to be compared with the other root by the first step; here %s — that side starts a level ahead (or with other items), the two roots are never compared, and nodes common to both versions are read even when the versions are the same", sdDesc(tree), bad))
+			case len(pushes) == 0:
+				c.Undecided(fn, pos, "root never handed to a stack", "the rule found no call that puts the root of "+sdDesc(tree)+" on a diff stack")
+			default:
+				c.OK(pos, what, "pushed as one link item; not expanded or loaded while the state is built", false)
+			}
+		}
+	}
+	if n == 0 {
+		c.Undecided(nil, "-", "no construction of the diff state", "no function returning the diff state reads a tree's root")
 	}
 }
